@@ -21,8 +21,6 @@ use mp3_metadata::MP3Metadata;
 use regex::Regex;
 #[cfg(all(unix, feature = "users"))]
 use uzers::{Groups, Users, UsersCache};
-#[cfg(unix)]
-use xattr::FileExt;
 
 use crate::config::Config;
 use crate::expr::Expr;
@@ -1490,11 +1488,11 @@ impl<'a> Searcher<'a> {
             Field::HasXattrs => {
                 #[cfg(unix)]
                 {
-                    if let Ok(file) = fs::File::open(entry.path()) {
-                        if let Ok(xattrs) = file.list_xattr() {
-                            let has_xattrs = xattrs.count() > 0;
-                            return Variant::from_bool(has_xattrs);
-                        }
+                    // asked by path, links not followed: opening the entry would report a link
+                    // target's attributes, need read permission and block on a FIFO
+                    if let Ok(xattrs) = xattr::list(entry.path()) {
+                        let has_xattrs = xattrs.count() > 0;
+                        return Variant::from_bool(has_xattrs);
                     }
                 }
 
@@ -1506,12 +1504,10 @@ impl<'a> Searcher<'a> {
             Field::Capabilities => {
                 #[cfg(target_os = "linux")]
                 {
-                    if let Ok(file) = fs::File::open(entry.path()) {
-                        if let Ok(Some(caps_xattr)) = file.get_xattr("security.capability") {
-                            let caps_string =
-                                crate::util::capabilities::parse_capabilities(caps_xattr);
-                            return Variant::from_string(&caps_string);
-                        }
+                    if let Ok(Some(caps_xattr)) = xattr::get(entry.path(), "security.capability") {
+                        let caps_string =
+                            crate::util::capabilities::parse_capabilities(caps_xattr);
+                        return Variant::from_string(&caps_string);
                     }
                 }
 
